@@ -792,7 +792,10 @@ static void checkC11(Ctx& c, long idx, Rng& r) {
     if (anyDiss) {
         for (int k : kinds) c.cover(in + "/dissipation-monotone/" + skName(k));
         c.cover(in + "/dissipation-monotone/" + cell);
-        c.check("energy-never-increases:" + in, D.cInc, K_C * o.acc, [&] { return Json(wit0).set("increase/Escale", D.cInc).set("t", D.tc).set("Escale", D.Escale); });
+        // same accuracy law as every other clause (K acc^alpha, capped): the error actually delivered by local error
+        // control scales with acc^alpha (0.8 for Feldberg/Merson ...), see level_note; a bound linear in acc was
+        // tighter than the integrator's own accuracy for alpha < 1 (DESIGN section 8 no. 13)
+        c.check("energy-never-increases:" + in, D.cInc, std::min(K_C * std::pow(o.acc, alpha), TOL_CAP), [&] { return Json(wit0).set("increase/Escale", D.cInc).set("t", D.tc).set("Escale", D.Escale); });
         if (anyBushingDiss && !nonBushingDiss) twoSided("dissipation-accounted", D.d, K_D, [](const Drift& d) { return d.d; });
     }
 }
